@@ -89,6 +89,9 @@ pub enum Forgery {
     ResignedGenuine(Comp, Edit),
     /// SREP.ROOT cut to this many bytes and re-signed by the genuine online key
     RootLen(u8),
+    /// the certificate's signature replaced by the encoding of (neutral element, 0) — which verifies under the neutral
+    /// element as "public key" for every message
+    NeutralCertSig,
     /// everything an honest server of the OTHER protocol would sign for this request — SREP laid out like the other
     /// protocol and re-signed by the genuine online key, certificate signed by the genuine long-term key under the OTHER
     /// delegation context — around a Merkle proof that is correct for THIS protocol
@@ -118,6 +121,45 @@ pub struct Plan {
     /// 0 = UTC output (-z); 1.. = local-time output (no -z) under one of C01_ZONES
     #[serde(default)]
     pub zone: u8,
+    /// bit set of further client options (clientlab::ClientArgs::opts)
+    #[serde(default)]
+    pub opts: u8,
+    /// 0 = the genuine long-term key is pinned. Otherwise the `-k` value is NOT a public key at all (1: 32 bytes that
+    /// are not a curve point, 2: 31 bytes, 3: 33 bytes, 4: the genuine key with its sign bit chosen so that it does not
+    /// decode, if that exists, else as 1); nothing is authentic under such a key
+    #[serde(default)]
+    pub bad_key: u8,
+}
+
+/// a `-k` value that is no Ed25519 public key
+fn bad_key_bytes(kind: u8, genuine: &[u8]) -> Vec<u8> {
+    use ed25519_dalek::VerifyingKey;
+    let undecodable = |b: &[u8]| <[u8; 32]>::try_from(b).map(|a| VerifyingKey::from_bytes(&a).is_err()).unwrap_or(true);
+    match kind % 5 {
+        2 => genuine[..31].to_vec(),
+        3 => {
+            let mut v = genuine.to_vec();
+            v.push(0);
+            v
+        }
+        k => {
+            // first candidate that does not decompress: the genuine key with low bits changed (4), else hash-derived
+            let mut n = 0u32;
+            loop {
+                let cand: Vec<u8> = if k == 4 {
+                    let mut g = genuine.to_vec();
+                    g[0] ^= (n as u8).wrapping_add(1);
+                    g
+                } else {
+                    sha512(&[b"not-a-point", &n.to_le_bytes()])[..32].to_vec()
+                };
+                if undecodable(&cand) {
+                    return cand;
+                }
+                n += 1;
+            }
+        }
+    }
 }
 
 fn proto(ietf: bool) -> Proto {
@@ -363,6 +405,11 @@ fn forge(plan: &Plan, i: usize, requests: &[Vec<u8>]) -> Vec<u8> {
             parts.resign_srep(&good.online);
             parts.assemble()
         }
+        Forgery::NeutralCertSig => {
+            parts.cert_sig = vec![0u8; 64];
+            parts.cert_sig[0] = 1;
+            parts.assemble()
+        }
         Forgery::OtherProtocolSignatures => {
             if pr == Proto::Classic {
                 parts.srep.set(rc::VER, VER_DRAFT13.to_le_bytes().to_vec());
@@ -457,6 +504,7 @@ fn forgery_kind(f: &Forgery) -> String {
         Forgery::ResignedGenuine(c, _) => format!("resigned-by-genuine-online-key:{:?}", c),
         Forgery::RootLen(n) => format!("root-cut-to-{}-bytes-resigned", *n & !3),
         Forgery::OtherProtocolSignatures => "other-protocol-signatures-on-correct-proof".into(),
+        Forgery::NeutralCertSig => "neutral-element-certificate-signature".into(),
         Forgery::ExtraTopLevelTag(t, _) => format!("extra-top-level-{}", rc::tag_name(EXTRA_TAGS[*t as usize % EXTRA_TAGS.len()])),
         Forgery::Truncate(_) => "truncate".into(),
         Forgery::Extend(_) => "extend".into(),
@@ -470,9 +518,11 @@ fn forgery_kind(f: &Forgery) -> String {
 fn check_forgery(ctx: &mut Ctx, plan: &Plan) -> Res {
     ctx.eval();
     let pr = proto(plan.ietf);
-    let pk = RefKey::from_seed(&LT_SEED).public();
+    let genuine = RefKey::from_seed(&LT_SEED).public();
+    // what is pinned with -k: the genuine key, or bytes that are no public key (then nothing is authentic)
+    let pk = if plan.bad_key == 0 { genuine.clone() } else { bad_key_bytes(plan.bad_key, &genuine) };
     let zone = plan.zone as usize % (C01_ZONES.len() + 1);
-    let args = ClientArgs { ietf: plan.ietf, key: Some(key_string(&pk, plan.key_b64)), nreq: plan.nreq.clamp(1, 64), mode: plan.mode % 3, local_tz: if zone == 0 { None } else { Some(C01_ZONES[zone - 1].to_string()) } };
+    let args = ClientArgs { ietf: plan.ietf, key: Some(key_string(&pk, plan.key_b64)), nreq: plan.nreq.clamp(1, 64), mode: plan.mode % 3, local_tz: if zone == 0 { None } else { Some(C01_ZONES[zone - 1].to_string()) }, opts: plan.opts & 7 };
     let delivered: RefCell<Vec<Vec<u8>>> = RefCell::new(vec![]);
     let run = match run_client(&args, |reqs| {
         let out: Vec<Vec<u8>> = (0..reqs.len()).map(|i| forge(plan, i, reqs)).collect();
@@ -625,6 +675,7 @@ fn forgery_strategy() -> impl Strategy<Value = Forgery> {
         2 => (prop::sample::select(vec![Comp::Root, Comp::Midp, Comp::Radi, Comp::SrepVer]), edit_strategy()).prop_map(|(c, e)| Forgery::ResignedGenuine(c, e)),
         1 => (0u8..=68).prop_map(Forgery::RootLen),
         1 => Just(Forgery::OtherProtocolSignatures),
+        1 => Just(Forgery::NeutralCertSig),
         2 => any::<u16>().prop_map(Forgery::Truncate),
         1 => bytes(1usize..=16).prop_map(Forgery::Extend),
         3 => proptest::collection::vec((any::<u16>(), any::<u8>()), 1..=8).prop_map(Forgery::ByteMuts),
@@ -649,7 +700,7 @@ fn batch_strategy() -> impl Strategy<Value = (u8, u8)> {
 
 fn plan_strategy() -> impl Strategy<Value = Plan> {
     (any::<bool>(), any::<bool>(), prop_oneof![5 => Just(1u8), 3 => 2u8..=4, 2 => 5u8..=16, 1 => 17u8..=64], 0u8..3, batch_strategy(), forgery_strategy(), any::<u8>()).prop_flat_map(|(ietf, key_b64, nreq, mode, (batch, index), forgery, target)| {
-        (midp_strategy(ietf), prop_oneof![3 => Just(0u8), 1 => 1u8..=4], prop_oneof![4 => Just(None), 1 => (0usize..2, -3i64..=3).prop_map(Some)]).prop_map(move |(midp, zone, fold)| {
+        (midp_strategy(ietf), prop_oneof![3 => Just(0u8), 1 => 1u8..=4], prop_oneof![4 => Just(None), 1 => (0usize..2, -3i64..=3).prop_map(Some)], prop_oneof![3 => Just(0u8), 1 => 0u8..8], prop_oneof![7 => Just(0u8), 1 => 1u8..=4]).prop_map(move |(midp, zone, fold, opts, bad_key)| {
             // a fifth of the local-time plans sit on an instant at which the zone repeats an hour
             let (midp, zone) = match fold {
                 Some((k, d)) => {
@@ -658,7 +709,7 @@ fn plan_strategy() -> impl Strategy<Value = Plan> {
                 }
                 None => (midp, zone),
             };
-            Plan { ietf, key_b64, nreq, mode, batch, index, midp, target: target % nreq, forgery: forgery.clone(), zone }
+            Plan { ietf, key_b64, nreq, mode, batch, index, midp, target: target % nreq, forgery: forgery.clone(), zone, opts, bad_key }
         })
     })
 }
@@ -668,7 +719,7 @@ fn fixed_table() -> Vec<Plan> {
     let mut out = vec![];
     for ietf in [false, true] {
         for key_b64 in [false, true] {
-            let base = |forgery: Forgery, batch: u8, index: u8, nreq: u8, target: u8| Plan { ietf, key_b64, nreq, mode: 0, batch, index, midp: if ietf { 1_700_000_000 } else { 1_700_000_000_123_456 }, target, forgery, zone: 0 };
+            let base = |forgery: Forgery, batch: u8, index: u8, nreq: u8, target: u8| Plan { ietf, key_b64, nreq, mode: 0, batch, index, midp: if ietf { 1_700_000_000 } else { 1_700_000_000_123_456 }, target, forgery, zone: 0, opts: 0, bad_key: 0 };
             for c in COMPS {
                 for e in [Edit::Bit(3), Edit::Byte(40_000, 0x80), Edit::Random(1), Edit::Zero, Edit::Ones] {
                     out.push(base(Forgery::Region(c, e), 5, 3, 1, 0));
@@ -698,6 +749,7 @@ fn fixed_table() -> Vec<Plan> {
                 Forgery::ResignedGenuine(Comp::Root, Edit::Bit(5)),
                 Forgery::ResignedGenuine(Comp::Root, Edit::Zero),
                 Forgery::OtherProtocolSignatures,
+                Forgery::NeutralCertSig,
                 Forgery::RootLen(0),
                 Forgery::RootLen(4),
                 Forgery::RootLen(28),
@@ -727,6 +779,22 @@ fn fixed_table() -> Vec<Plan> {
                         p.midp = if ietf { *fold } else { *fold * 1_000_000 };
                         out.push(p);
                     }
+                }
+            }
+            // a pinned "key" that is no key: honest responses, the neutral-element certificate, a whole other chain
+            for bad_key in 1..=4u8 {
+                for f in [Forgery::Honest, Forgery::NeutralCertSig, Forgery::WholeOtherKey] {
+                    let mut p = base(f, 2, 1, 1, 0);
+                    p.bad_key = bad_key;
+                    out.push(p);
+                }
+            }
+            // the documented extra options: replays of an earlier run's response when requests are also written to a file
+            for opts in [1u8, 2, 4, 7] {
+                for f in [Forgery::Honest, Forgery::ReplayPrevious(0), Forgery::ReplayPrevious(1), Forgery::Region(Comp::Midp, Edit::Bit(3))] {
+                    let mut p = base(f, 1, 0, 2, 1);
+                    p.opts = opts;
+                    out.push(p);
                 }
             }
             // splices and replays inside multi-request runs
@@ -764,11 +832,11 @@ pub fn run_c01(ctx: &mut Ctx) -> Vec<Violation> {
             let len = if ietf { 12 + 48 + 64 + 32 + 96 + 116 + 152 + 4 } else { 48 + 64 + 64 + 192 + 100 + 152 + 4 };
             for key_b64 in [false, true] {
                 for off in 0..len as u16 {
-                    plans.push(Plan { ietf, key_b64, nreq: 1, mode: 0, batch: 5, index: 2, midp: if ietf { 1_800_000_000 } else { 1_800_000_000_000_001 }, target: 0, forgery: Forgery::ByteAt(off, 1 << (off % 8)), zone: 0 });
+                    plans.push(Plan { ietf, key_b64, nreq: 1, mode: 0, batch: 5, index: 2, midp: if ietf { 1_800_000_000 } else { 1_800_000_000_000_001 }, target: 0, forgery: Forgery::ByteAt(off, 1 << (off % 8)), zone: 0, opts: 0, bad_key: 0 });
                 }
             }
             for n in (0..u16::MAX).step_by(97) {
-                plans.push(Plan { ietf, key_b64: false, nreq: 1, mode: 0, batch: 5, index: 2, midp: if ietf { 1_800_000_000 } else { 1_800_000_000_000_001 }, target: 0, forgery: Forgery::Truncate(n), zone: 0 });
+                plans.push(Plan { ietf, key_b64: false, nreq: 1, mode: 0, batch: 5, index: 2, midp: if ietf { 1_800_000_000 } else { 1_800_000_000_000_001 }, target: 0, forgery: Forgery::Truncate(n), zone: 0, opts: 0, bad_key: 0 });
             }
         }
         let v = run_enum(ctx, "every-offset", plans.len() as u64, |i| plans[i as usize].clone(), |ctx, p| check_forgery(ctx, p));
@@ -814,6 +882,33 @@ pub struct HonestPlan {
     /// long-term key (what a multi-worker server does)
     #[serde(default)]
     pub rotate_online: bool,
+    /// reference peer, IETF only: the signed list of versions the server supports (0 = classic + draft-13 like this
+    /// project's server; 1 = draft-13 only; 2 = draft-13 and a newer one; 3 = classic, an older draft, draft-13, a newer one)
+    #[serde(default)]
+    pub vers_variant: u8,
+    /// reference peer: request k of the run is answered with midpoint + k * step units (replies of one run come from
+    /// different batches / workers, their midpoints need not increase)
+    #[serde(default)]
+    pub midp_step: i8,
+    /// bit set of further client options (clientlab::ClientArgs::opts)
+    #[serde(default)]
+    pub opts: u8,
+}
+
+/// an honest reference reply for request number `k` of the run
+fn honest_reply(p: &HonestPlan, resp: &Responder, pr: Proto, r: &[u8], batch: u8, index: u8, k: usize) -> Vec<u8> {
+    let midp = (p.midp as i128 + k as i128 * p.midp_step as i128).clamp(0, if p.ietf { 253_402_300_799 } else { 253_402_300_799_999_999 }) as u64;
+    let mut parts = honest_parts(resp, pr, r, batch, index, midp);
+    if p.ietf && p.vers_variant % 4 != 0 {
+        let list: Vec<u32> = match p.vers_variant % 4 {
+            1 => vec![VER_DRAFT13],
+            2 => vec![VER_DRAFT13, 0x8000_000d],
+            _ => vec![VER_CLASSIC, 0x8000_000b, VER_DRAFT13, 0x8000_000e],
+        };
+        parts.srep.set(rc::VERS, list.iter().flat_map(|v| v.to_le_bytes()).collect());
+        parts.resign_srep(&resp.online);
+    }
+    parts.assemble()
 }
 
 /// POSIX TZ strings (no tzdata needed) and two named zones; the printed instant must not depend on the zone
@@ -846,7 +941,7 @@ fn check_honest(ctx: &mut Ctx, p: &HonestPlan) -> Res {
     // local-time output is only compared through the epoch-seconds format (mode 3's civil date would need tzdata)
     let zone = if p.mode % 4 == 3 { 0 } else { p.zone as usize % (LOCAL_ZONES.len() + 1) };
     let local_tz = if zone == 0 { None } else { Some(LOCAL_ZONES[zone - 1].to_string()) };
-    let args = ClientArgs { ietf: p.ietf, key: key.clone(), nreq, mode: p.mode % 4, local_tz: local_tz.clone() };
+    let args = ClientArgs { ietf: p.ietf, key: key.clone(), nreq, mode: p.mode % 4, local_tz: local_tz.clone(), opts: p.opts & 7 };
     let delivered: RefCell<Vec<Vec<u8>>> = RefCell::new(vec![]);
     let lab_err: RefCell<Option<String>> = RefCell::new(None);
     let run = run_client(&args, |reqs| {
@@ -894,9 +989,9 @@ fn check_honest(ctx: &mut Ctx, p: &HonestPlan) -> Res {
                     if p.rotate_online {
                         let mut seed = ONLINE_SEED;
                         seed[0] ^= out.len() as u8 + 1;
-                        honest_parts(&Responder::new(&LT_SEED, &seed), pr, r, batch as u8, index as u8, p.midp).assemble()
+                        honest_reply(p, &Responder::new(&LT_SEED, &seed), pr, r, batch as u8, index as u8, out.len())
                     } else {
-                        honest_parts(&ref_resp, pr, r, batch as u8, index as u8, p.midp).assemble()
+                        honest_reply(p, &ref_resp, pr, r, batch as u8, index as u8, out.len())
                     }
                 }
                 Some(lab) => {
@@ -1031,7 +1126,7 @@ fn check_honest(ctx: &mut Ctx, p: &HonestPlan) -> Res {
 
 fn honest_strategy() -> impl Strategy<Value = HonestPlan> {
     (any::<bool>(), prop_oneof![3 => 0u8..3, 1 => 3u8..5], prop_oneof![6 => Just(1u8), 2 => 2u8..=4, 1 => 5u8..=16, 1 => 17u8..=64], 0u8..4, batch_strategy(), prop::bool::weighted(0.4), prop_oneof![2 => Just(0u8), 1 => 1u8..=7]).prop_flat_map(|(ietf, key, nreq, mode, (batch, index), real_server, zone)| {
-        (midp_strategy(ietf), any::<bool>(), any::<bool>()).prop_map(move |(midp, same_batch, rotate)| HonestPlan { ietf, key, zone, nreq, mode, batch, index, midp, real_server, same_batch: same_batch && !rotate, rotate_online: rotate && !real_server })
+        (midp_strategy(ietf), any::<bool>(), any::<bool>(), prop_oneof![2 => Just(0u8), 1 => 1u8..4], prop_oneof![2 => Just(0i8), 1 => -3i8..=3], prop_oneof![3 => Just(0u8), 1 => 0u8..8]).prop_map(move |(midp, same_batch, rotate, vers_variant, midp_step, opts)| HonestPlan { ietf, key, zone, nreq, mode, batch, index, midp, real_server, same_batch: same_batch && !rotate, rotate_online: rotate && !real_server, vers_variant, midp_step, opts })
     })
 }
 
@@ -1056,7 +1151,7 @@ pub fn run_c03(ctx: &mut Ctx) -> Vec<Violation> {
                         if t == Tier::Thorough && key == 2 && b > 8 {
                             continue;
                         }
-                        grid.push(HonestPlan { ietf, key, zone: 0, nreq: 1, mode: (b + i) % 4, batch: b, index: i, midp: if ietf { 1_750_000_000 } else { 1_750_000_000_999_999 }, real_server, same_batch: false, rotate_online: false });
+                        grid.push(HonestPlan { ietf, key, zone: 0, nreq: 1, mode: (b + i) % 4, batch: b, index: i, midp: if ietf { 1_750_000_000 } else { 1_750_000_000_999_999 }, real_server, same_batch: false, rotate_online: false, vers_variant: 0, midp_step: 0, opts: 0 });
                     }
                 }
             }
@@ -1068,31 +1163,38 @@ pub fn run_c03(ctx: &mut Ctx) -> Vec<Violation> {
         for key in 0..3u8 {
             for real_server in [false, true] {
                 for (nreq, batch, index) in [(2u8, 2u8, 0u8), (3, 8, 2), (5, 5, 0), (9, 16, 4), (16, 64, 40)] {
-                    grid.push(HonestPlan { ietf, key, zone: 0, nreq, mode: nreq % 3, batch, index, midp: if ietf { 1_760_000_000 } else { 1_760_000_000_000_001 }, real_server, same_batch: true, rotate_online: false });
+                    grid.push(HonestPlan { ietf, key, zone: 0, nreq, mode: nreq % 3, batch, index, midp: if ietf { 1_760_000_000 } else { 1_760_000_000_000_001 }, real_server, same_batch: true, rotate_online: false, vers_variant: 0, midp_step: 0, opts: 0 });
                 }
             }
+        }
+    }
+    // other honest servers: different signed version lists; midpoints that do not increase from reply to reply; the
+    // client's extra options
+    for ietf in [false, true] {
+        for (vers_variant, midp_step, opts) in [(1u8, 0i8, 0u8), (2, 0, 0), (3, 0, 1), (0, -1, 0), (0, -3, 2), (2, 1, 4), (0, 0, 7)] {
+            grid.push(HonestPlan { ietf, key: 1, zone: 0, nreq: 3, mode: vers_variant % 3, batch: 2, index: 1, midp: if ietf { 1_766_000_000 } else { 1_766_000_000_000_002 }, real_server: false, same_batch: false, rotate_online: false, vers_variant, midp_step, opts });
         }
     }
     // every reply of a run signed by a different (certified) online key
     for ietf in [false, true] {
         for key in 0..3u8 {
-            grid.push(HonestPlan { ietf, key, zone: 0, nreq: 4, mode: key, batch: 3, index: 1, midp: if ietf { 1_765_000_000 } else { 1_765_000_000_000_000 }, real_server: false, same_batch: false, rotate_online: true });
+            grid.push(HonestPlan { ietf, key, zone: 0, nreq: 4, mode: key, batch: 3, index: 1, midp: if ietf { 1_765_000_000 } else { 1_765_000_000_000_000 }, real_server: false, same_batch: false, rotate_online: true, vers_variant: 0, midp_step: 0, opts: 0 });
         }
     }
     // key spellings and local-time output
     for ietf in [false, true] {
         for key in [3u8, 4] {
-            grid.push(HonestPlan { ietf, key, zone: 0, nreq: 1, mode: 1, batch: 3, index: 1, midp: if ietf { 1_770_000_000 } else { 1_770_000_000_500_000 }, real_server: false, same_batch: false, rotate_online: false });
+            grid.push(HonestPlan { ietf, key, zone: 0, nreq: 1, mode: 1, batch: 3, index: 1, midp: if ietf { 1_770_000_000 } else { 1_770_000_000_500_000 }, real_server: false, same_batch: false, rotate_online: false, vers_variant: 0, midp_step: 0, opts: 0 });
         }
         // honest replies whose midpoint falls in an hour the local zone repeats or skips (clocks back / forward)
         for (zone, instants) in [(6u8, [1_762_063_200u64, 1_762_063_199, 1_741_503_600]), (7u8, [1_761_440_400, 1_761_440_399, 1_743_296_400])] {
             for (k, s) in instants.iter().enumerate() {
-                grid.push(HonestPlan { ietf, key: 1, zone, nreq: 1, mode: k as u8 % 3, batch: 2, index: 0, midp: if ietf { *s } else { *s * 1_000_000 + 1 }, real_server: false, same_batch: false, rotate_online: false });
+                grid.push(HonestPlan { ietf, key: 1, zone, nreq: 1, mode: k as u8 % 3, batch: 2, index: 0, midp: if ietf { *s } else { *s * 1_000_000 + 1 }, real_server: false, same_batch: false, rotate_online: false, vers_variant: 0, midp_step: 0, opts: 0 });
             }
         }
         for zone in 1..=5u8 {
             for midp_s in [1_770_000_000u64, 1_751_759_999, 1_762_061_400, 86_399, 4_102_444_799] {
-                grid.push(HonestPlan { ietf, key: 1, zone, nreq: 1, mode: zone % 3, batch: 2, index: 1, midp: if ietf { midp_s } else { midp_s * 1_000_000 + 7 }, real_server: false, same_batch: false, rotate_online: false });
+                grid.push(HonestPlan { ietf, key: 1, zone, nreq: 1, mode: zone % 3, batch: 2, index: 1, midp: if ietf { midp_s } else { midp_s * 1_000_000 + 7 }, real_server: false, same_batch: false, rotate_online: false, vers_variant: 0, midp_step: 0, opts: 0 });
             }
         }
     }
